@@ -91,6 +91,7 @@ func newTotWorld(cfg string) *totWorld {
 	pkg.NewFunc(nil, "f2", nil, types.NewTuple(types.NewParam(token.NoPos, pkg.Types, "", ti), types.NewParam(token.NoPos, pkg.Types, "", terr)), false).
 		BodyStart(pkg).Val(0).Val(nil).Return(2).End()
 	pkg.NewFunc(nil, "f0", nil, nil, false).BodyStart(pkg).End()
+	pkg.NewFunc(nil, "f2args", types.NewTuple(types.NewParam(token.NoPos, pkg.Types, "a", ti), types.NewParam(token.NoPos, pkg.Types, "b", types.Typ[types.String])), nil, false).BodyStart(pkg).End()
 	return w
 }
 
@@ -166,6 +167,7 @@ func (w *totWorld) exec(p totPoint) (outcome, msg string) {
 	w.cb = pkg.NewFunc(nil, fmt.Sprintf("t%d", w.n), nil, res, false).BodyStart(pkg)
 	cb := w.cb
 	bi := pkg.Builtin()
+	ref := func(n string) types.Object { return pkg.Types.Scope().Lookup(n) }
 	op := p.Op
 	switch {
 	case strings.HasPrefix(op, "UnaryOp"):
@@ -240,6 +242,107 @@ func (w *totWorld) exec(p totPoint) (outcome, msg string) {
 		case "ZeroConv":
 			w.push(p.X)
 			cb.Call(0)
+		case "MemberAlias":
+			w.push(p.X)
+			cb.Member("foo", 0, gogen.MemberFlagMethodAlias)
+		case "MemberAutoProp":
+			w.push(p.X)
+			cb.Member("foo", 0, gogen.MemberFlagAutoProperty)
+		case "TypeAssert2":
+			w.push(p.X)
+			cb.TypeAssert(ti, 2)
+		case "IndexRef0":
+			w.push(p.X)
+			cb.Val(0).IndexRef(1)
+		case "ElemRef":
+			w.push(p.X)
+			cb.ElemRef()
+		case "StructLit1":
+			w.push(p.X)
+			cb.StructLit(ref("vstruct").Type(), 1, false)
+		case "ArrayLit1":
+			w.push(p.X)
+			cb.ArrayLit(types.NewArray(ti, 2), 1)
+		case "TypeSwitchThen":
+			cb.TypeSwitch("t")
+			w.push(p.X)
+			cb.TypeAssertThen().End()
+		case "ForThen":
+			cb.For()
+			w.push(p.X)
+			cb.Then().End()
+		case "InlineClosure1":
+			par := types.NewParam(token.NoPos, pkg.Types, "a", ti)
+			sig := types.NewSignatureType(nil, nil, nil, types.NewTuple(par), types.NewTuple(types.NewParam(token.NoPos, pkg.Types, "", ti)), false)
+			w.push(p.X)
+			cb.CallInlineClosureStart(sig, 1, false).Val(par).Return(1).End()
+		case "Instantiate":
+			w.push(p.X)
+			cb.Typ(ti).Index(1, 0)
+		case "DefineVar":
+			cb.DefineVarStart(token.NoPos, "d")
+			w.push(p.X)
+			cb.EndInit(1)
+		case "CallEllipsis1":
+			cb.Val(bi.Ref("append")).Val(ref("vslice"))
+			w.push(p.X)
+			cb.Call(2, true)
+		case "new", "make", "panic":
+			cb.Val(bi.Ref(op))
+			w.push(p.X)
+			cb.Call(1)
+		case "Slice3":
+			w.push(p.X)
+			w.push(p.Y)
+			cb.Val(1).Val(2).Slice(true)
+		case "StructLitKV":
+			s2 := types.NewStruct([]*types.Var{types.NewField(token.NoPos, pkg.Types, "A", ti, false), types.NewField(token.NoPos, pkg.Types, "B", types.Typ[types.String], false)}, nil)
+			cb.Val(0)
+			w.push(p.X)
+			cb.Val(1)
+			w.push(p.Y)
+			cb.StructLit(s2, 4, true)
+		case "ArrayLitKV":
+			w.push(p.X)
+			w.push(p.Y)
+			cb.ArrayLit(types.NewArray(ti, 2), 2, true)
+		case "SliceLitKV":
+			w.push(p.X)
+			w.push(p.Y)
+			cb.SliceLit(types.NewSlice(ti), 2, true)
+		case "IndexRef":
+			w.push(p.X)
+			w.push(p.Y)
+			cb.IndexRef(1)
+		case "Call2":
+			cb.Val(ref("f2args"))
+			w.push(p.X)
+			w.push(p.Y)
+			cb.Call(2)
+		case "Return2":
+			w.push(p.X)
+			w.push(p.Y)
+			cb.Return(2)
+		case "AssignMulti":
+			cb.VarRef(ref("vint")).VarRef(ref("vstring"))
+			w.push(p.X)
+			w.push(p.Y)
+			cb.Assign(2, 2)
+		case "CommCaseSend":
+			cb.Select().CommCase()
+			w.push(p.X)
+			w.push(p.Y)
+			cb.Send().Then().End().End()
+		case "RangeAssign":
+			cb.ForRange()
+			w.push(p.X)
+			w.push(p.Y)
+			cb.RangeAssignThen(token.NoPos).End()
+		case "delete", "complex", "min":
+			cb.Val(bi.Ref(op))
+			w.push(p.X)
+			w.push(p.Y)
+			cb.Call(2)
 		case "Assign":
 			w.push(p.X)
 			w.push(p.Y)
